@@ -7,8 +7,9 @@ require='sharedmem'): the scripted objective (`Problem.evaluate`) and the store'
 per-task gate; a scheduler thread waits until every live worker is blocked, releases exactly one of them
 according to the schedule under test, waits until that thread blocks at its next gate or its job ends, and
 records the global order in which the gates were passed.  Everything goes through `Algorithm.evaluate` with
-max_processes = 2..4 (8 in the free-running stress runs), with a real SQLite file store (default thread-safe
-mode, read back through `ProblemViewDataStore`) or an in-memory recording store.
+max_processes = 2..4 (8 in the free-running stress runs, 4 or 8 in the free-running numpy-objective runs), with a
+real SQLite file store (default thread-safe mode, read back through `ProblemViewDataStore`) or an in-memory
+recording store.
 
 Compared per schedule (in Coq, `par_run`):
   (a) the observed gate trace is a merge of the model's task step lists (projected on objective call / sync),
@@ -31,6 +32,10 @@ Ambient joblib configuration (red-team round 2): Algorithm.evaluate is also run 
 require='sharedmem', n_jobs=…)` contexts (11 configurations): the evaluation asks for shared memory, so the workers stay threads on
 the caller's designs; gated sessions (compared with the model as every other schedule) and a plain picklable Problem (so that
 workers that are processes really run: the caller's designs stay EMPTY, the objective is never called in this process).
+
+Numpy objectives (red-team round 3): seven objectives written with numpy whose arithmetic overflows / is invalid for SOME designs
+of a batch (`make_npF`), gated and free-running; inf / nan / huge values are VALUES of the objective in every thread (numpy's
+floating-point error state is thread-local); the model's objective table comes from a plain call of the same function.
 """
 import contextlib
 import io
@@ -51,9 +56,16 @@ THEOREMS = {"Artap.Props.C07": [
     "C07_costs_belong_to_vector", "C07_refused_store_writes_invisible", "C07_refused_store_writes_once_and_persisted"]}
 AXIOMS_OK = []
 # second tie to the code (tools/py2coq.py + front-end tools/py2coq_eff.py + coq/theories/GenProofs): on every run the source
-# of Evaluator.evaluate_parallel (the submission filter, finding F8; joblib's configuration pinned by text),
-# evaluate_serial and Job.evaluate is translated and proved equal to Model/Parallel.v par_tasks' submission rule and
-# Model/Job.v evaluate_serial / job_evaluate for all inputs
+# of eight functions is translated and proved equal to the models for all inputs (4 modules, 11 theorems):
+#   SignedCostsGen  Individual.calc_signed_costs                      = Model/Job.v signed_costs
+#   JobGen          Job.evaluate (whole)                              = Model/Job.v job_evaluate
+#   EvalPathGen     Evaluator.evaluate_serial / evaluate_scalar       = Model/Job.v evaluate_serial / evaluate_scalar;
+#                   Evaluator.evaluate_parallel (the submission filter, finding F8; joblib's configuration pinned by text)
+#                                                                     = Model/Parallel.v par_tasks' submission rule
+#   StoreGen        SqliteDataStore.sync_individual / sync_all        = a specification stated in GenProofs/StoreEquiv.v itself
+#                   (sync_spec / sync_all_spec: on sqlite3.OperationalError, and on nothing else, the same call again and
+#                   nothing in between) + the bridge to Model/Crash.v resync / sync_all_steps; no theorem there mentions
+#                   Model/Parallel.v: that this retry rule is what XRefused models is read off the specification
 from harness.core import translated_specs
 TRANSLATED = translated_specs("SignedCostsGen", "JobGen", "EvalPathGen", "StoreGen")
 TRUSTED = [
@@ -1666,7 +1678,7 @@ def run(ctx):
     ctx.rule = ("one case = one batch (2..6 designs, 6..24 in free-running runs; vectors from a 15-value grid with duplicates; 1..3 objectives, "
                 "0..2 constraints, or one of 8 artap benchmark problems as the objective; some designs already evaluated or left IN_PROGRESS / "
                 "FAILED; features['precision'] varied; scripted transient failures per (design, attempt)) evaluated by the real "
-                "Algorithm.evaluate with max_processes 2..4 (8 free-running) under one schedule of the worker threads, plus the real serial "
+                "Algorithm.evaluate with max_processes 2..4 (8 free-running, 4 or 8 in free-running numpy runs) under one schedule of the worker threads, plus the real serial "
                 "evaluation of the same batch; non-trivial = the observed gate trace is not the serial order (some job passes a gate while "
                 "another job is between its objective call and its sync); distinct = distinct (policy, workers, batch size, store, "
                 "sequence of (design, gate) events); store-fault stream: the write of chosen rows is refused 1..6 times in a row at the "
@@ -1674,7 +1686,9 @@ def run(ctx):
                 "until another worker has been refused r = 1..6 times; foreign connection holding BEGIN EXCLUSIVE), plus sync_all after "
                 "the batch; ambient stream: the same evaluation inside joblib.parallel_backend / parallel_config contexts (threading, loky, "
                 "multiprocessing, prefer / require / n_jobs): gated sessions and a plain picklable Problem, per-design result = serial, "
-                "objective called once per design in the caller's process")
+                "objective called once per design in the caller's process; numpy stream: seven objectives written with numpy that overflow / are "
+                "invalid (inf, nan, huge values, np.round overflow in calc_signed_costs) for some designs of the batch, gated and free-running, "
+                "objective table of the model = a plain call of the same function")
     ctx.extra.update({"schedules": acc["hist"]["schedules"], "distribution": acc["hist"]})
 
 
@@ -1695,8 +1709,8 @@ LEVEL_TEXT = ("Machine-checked Coq theorems over a small-step model of parallel 
               "same observation as serial, one successful objective call per design, nothing added to problem.failed, every row "
               "final) and exercised by fault injection at sqlite3.connect and by real lock contention; observed refusals are part of "
               "the trace the Coq driver replays.")
-LEVEL_NOTE = ("proof, partial. Not modelled but exercised (controlled schedules, all merges for batches <= 4 and 200 free-running 8-worker "
-              "runs with sys.setswitchinterval(1e-6) in the thorough tier): CPython byte-code interleavings inside a step, GIL atomicity "
+LEVEL_NOTE = ("proof, partial. Not modelled but exercised (controlled schedules, all merges for batches <= 4 and 296 free-running runs - 200 plain, 30 "
+              "benchmark and 24 foreign-lock runs with 8 workers, 42 numpy-objective runs with 4 or 8 workers - with sys.setswitchinterval(1e-6) in the thorough tier): CPython byte-code interleavings inside a step, GIL atomicity "
               "of list.append / attribute stores, joblib dispatch, SQLite's locking protocol. The OperationalError retry of "
               "sync_individual is modelled (effect-free refused attempts) under the assumption that the lock is eventually released, "
               "and driven by injected refusals (1..6 in a row, at INSERT / COMMIT / PRAGMA) and real contention (busy timeout "
